@@ -4,7 +4,7 @@ From Coq Require Import String.
 From Coq Require Import List Arith ZArith.
 Import ListNotations.
 From YP Require Import Base.Str Term.Term Unify.Unify Lang.Ast Comp.IR Comp.CompileBody Comp.CompileClause Comp.CompileTotal
-  Sem.Res Sem.RefSem Sem.IRSem Sem.ControlCorrect Sem.Machine Sem.ClauseSem Sem.ProgramCorrect Sem.SpecLemmas.
+  Sem.Res Sem.RefSem Sem.IRSem Sem.ControlCorrect Sem.Machine Sem.ClauseSem Sem.ProgramCorrect Sem.SpecLemmas Sem.Fresh.
 
 (* the model compiler produces code for every program (it never gets stuck, whatever the nesting) *)
 Theorem C01_compile_program_total : forall p, compile_program p <> None.
@@ -49,6 +49,25 @@ Theorem C01_fresh_head_variable : forall n s a x,
              (s' = (x, den s a) :: s \/ exists v, den s a = TVar v /\ s' = (v, TVar x) :: s).
 Proof. exact fresh_head_variable. Qed.
 Print Assumptions C01_fresh_head_variable.
+
+(* "Every clause activation works on fresh variables (recursive and repeated calls never share bindings)
+   and every `_` is a distinct variable."  inv s = every cell mentioned by the store is below the allocation
+   counter nxt s.  From such a state and goal arguments below the counter, every answer state again
+   satisfies inv, its counter has only grown, its store extends the store of the call.  So the cells that a
+   clause activation allocates (nxt s, nxt s + 1, ...) occur neither in the store nor in the goal, and no
+   later activation on the search path gets them again. *)
+Theorem C01_activations_use_fresh_cells : forall n p name args s,
+  inv s -> Forall (bounded (nxt s)) args ->
+  forall x, In x (fst (solveA n p name args s)) -> inv x /\ nxt s <= nxt x /\ ext (sto s) (sto x).
+Proof. exact solveA_fresh. Qed.
+Print Assumptions C01_activations_use_fresh_cells.
+
+(* the i-th variable of a clause's variable list gets cell k + i (distinct variables - in particular the
+   x1, x2, ... that the front end writes for the occurrences of `_` - get distinct cells) *)
+Theorem C01_distinct_variables_distinct_cells : forall vars r k,
+  fresh_env vars r k = (rev (combine (map pyvar vars) (map TVar (seq k (length vars)))) ++ r, k + length vars).
+Proof. exact fresh_env_cells. Qed.
+Print Assumptions C01_distinct_variables_distinct_cells.
 
 (* the call of a predicate never propagates the callee's cut *)
 Theorem C01_call_never_cuts : forall call f args c,
